@@ -305,6 +305,7 @@ pub fn gen(seed: u64, count: usize, tier: &str, params: &Params) -> Vec<Value> {
                 let axis = rng.below(nd as u64) as usize;
                 let mut shape: Vec<usize> = (0..nd).map(|_| rng.range(1, 3) as usize).collect();
                 shape[axis] = rng.range(1, 7) as usize;
+                if nd > 1 && rng.chance(1, 10) { let other = (axis + 1) % nd; shape[other] = 0; }      // zero lanes
                 let fancy = rng.chance(2, 3);
                 let lay = random_lay(&mut rng, &shape, fancy);
                 let n: usize = shape.iter().product();
